@@ -125,6 +125,12 @@ pub use crate::bitbox::verif::{allocate_bucket, hash_raw_page_id, probe_results}
 pub use crate::bitbox::verif::{open_and_recover, wal_read, PlainWalEntry, WalSim};
 pub use crate::page_diff::PageDiff;
 
+/// The real `bitbox::DB::prepare_sync` (bucket allocation, meta-map updates, the WAL blob, the
+/// hash-table pages handed to `write_ht`) on a caller-supplied table state and changeset.
+pub mod bitbox_sync {
+    pub use crate::bitbox::verif_sync::{PrepareOut, PrepareSim, SimBucket, SimDirty};
+}
+
 // ---------------------------------------------------------------------------------------------
 // Overlays (`overlay.rs`) built from explicit change maps, without a store: `LiveOverlay::new`,
 // `value`, `value_iter`, `page`, `finish` (and through it `Index::prune_below` / `insert_*`), the
